@@ -13,7 +13,9 @@ Import ListNotations.
 Open Scope N_scope.
 
 Inductive pcond := PAlways | PMulti | PSingle.
-Inductive pstep := PSub (exclude : list char) | PReplace (old new : str).
+(** [PSubN ex n]: the same substitution limited to the first [n] matches ([R.sub(cb, text, n)] / [count=n], n > 0;
+    round 3 - such a pipeline has a model, so the correspondences follow the code, but it is never [single_sub]). *)
+Inductive pstep := PSub (exclude : list char) | PReplace (old new : str) | PSubN (exclude : list char) (count : N).
 Definition pipeline := list (pcond * pstep).
 
 Definition applies (c : pcond) (ml : bool) : bool :=
@@ -45,8 +47,25 @@ Fixpoint replace_go (old new : str) (skip : nat) (s : str) : str :=
   end.
 Definition replace_all (old new s : str) : str := match old with [] => s | _ => replace_go old new O s end.
 
+(** The first [n] matching characters are replaced, the rest of the string is copied. *)
+Definition sub_matches (tbl : list (char * char)) (ex : list char) (c : char) : bool :=
+  negb (mem c ex) && match rlookup c tbl with Some _ => true | None => false end.
+Fixpoint sub_step_n (tbl : list (char * char)) (ex : list char) (n : nat) (s : str) : str :=
+  match s with
+  | [] => []
+  | c :: r =>
+    match n with
+    | O => s
+    | S n' => if sub_matches tbl ex c then sub_char tbl ex c ++ sub_step_n tbl ex n' r else c :: sub_step_n tbl ex n r
+    end
+  end.
+
 Definition run_step (tbl : list (char * char)) (st : pstep) (s : str) : str :=
-  match st with PSub ex => sub_step tbl ex s | PReplace o n => replace_all o n s end.
+  match st with
+  | PSub ex => sub_step tbl ex s
+  | PReplace o n => replace_all o n s
+  | PSubN ex n => sub_step_n tbl ex (N.to_nat n) s
+  end.
 
 Definition effective (p : pipeline) (ml : bool) : list pstep :=
   map snd (filter (fun cs => applies (fst cs) ml) p).
@@ -66,6 +85,8 @@ Definition excl_of (p : pipeline) (ml : bool) : list char :=
 Definition step_of_row (r : N * N * list N * list N) : pcond * pstep :=
   let '(c, k, a, b) := r in
   ((if c =? 0 then PAlways else if c =? 1 then PMulti else PSingle),
-   (if k =? 0 then PSub a else PReplace a b)).
+   (if k =? 0 then PSub a else if k =? 1 then PReplace a b else PSubN a (match b with n :: _ => n | [] => 0 end))).
 Definition rows_wellformed (rs : list (N * N * list N * list N)) : bool :=
-  forallb (fun r => let '(c, k, a, b) := r in (c <=? 2) && (k <=? 1) && ((k =? 0) || negb (N.of_nat (length a) =? 0))) rs.
+  forallb (fun r => let '(c, k, a, b) := r in (c <=? 2) && (k <=? 2)
+    && ((k =? 0) || (k =? 2) || negb (N.of_nat (length a) =? 0))
+    && (negb (k =? 2) || match b with [n] => 0 <? n | _ => false end)) rs.
